@@ -73,7 +73,7 @@ func lookupCallsIn(f *ssa.Function, lookups map[*ssa.Function]int) []lookupCall 
 }
 
 func checkC10(p *Program, r *Report) {
-	r.Explanation = "Decided guards and by-construction consistency: (overrun) in every descent, a cursor advance by a step length loaded from trie data (the no-stored-prefix mode) is followed on every path to the next label lookup by a comparison of that cursor with the key's bit length whose failing edge leaves the descent; (keyindex) the only byte index into the query key is dominated by cursor < keyBitLen of the same session, and every session that carries a key is created with keyBitLen = 8*len(key) of that key; (empty) on every call path from an exported API to a dereference of the node-type bitmap a nil test of it with an early exit dominates; (node-decoder) the node decoder of the lookup path computes the same bit-range and short-bitmap terms under the same guards as its sibling copies, so no copy reads the straddled word unguarded; (same-descent) Get and GetI8..GetI64 derive hit and leaf from one GetID call, RangeGet and Search from one three-way descent, and the two descents update the cursor with the same set of normalised terms."
+	r.Explanation = "Decided guards and by-construction consistency: (overrun) in every descent, a cursor advance by a step length loaded from trie data (the no-stored-prefix mode) is followed on every path to the next label lookup by a comparison of that cursor with the key's bit length whose failing edge leaves the descent; (keyindex) the only byte index into the query key is dominated by cursor < keyBitLen of the same session, and every session that carries a key is created with keyBitLen = 8*len(key) of that key; (empty) on every call path from an exported API to a dereference of the node-type bitmap a nil test of it with an early exit dominates; (node-decoder) the node decoder of the lookup path computes the same bit-range and short-bitmap terms under the same guards as its sibling copies, so no copy reads the straddled word unguarded; (same-descent) Get and GetI8..GetI64 derive hit and leaf from one GetID call, RangeGet and Search from one three-way descent, and the two descents update the cursor with the same set of normalised terms. (session-valid) the node decoders assign bm / innerPrefix / leafPrefix of the caller's reused session only for some nodes; each is stored on a decoder path iff the discriminator the decoder assigns on every path says valid (to-from == ShortSize, hasInnerPrefix, hasLeafPrefix; producers judged on guarded summaries with store effects) and every load of it elsewhere sits under the valid edge of a branch on that discriminator of the same session, so no lookup uses a previous node's value."
 	r.NotCovered = "Absence of panics for arbitrary queries in general (needs data invariants of a well-formed trie: alignment of cursor and key length, well-formed ranks); equality of the two descents' results."
 	r.Trusted = []string{"go/ssa"}
 
@@ -267,7 +267,7 @@ func checkC10(p *Program, r *Report) {
 	getID := p.Method(p.Trie, "SlimTrie", "GetID")
 	get := p.Method(p.Trie, "SlimTrie", "Get")
 	if getID != nil && get != nil {
-		gs := summariseGetter(p, get)
+		gs := summariseGetter(p, get, getID)
 		idS := idTermOfGet(gs)
 		why := gs.why
 		if why == "" && idS == "" {
